@@ -938,13 +938,21 @@ Proof.
   replace (fr_tail (w_fr w1) =? ntail) with false by (symmetry; apply N.eqb_neq; rewrite T1; lia).
   set (w2 := fr_trunc_tail w1 ntail).
   assert (PW2 : PInv w2 lp).
-  { apply (pinv_transfer_core w1 _ lp PW1); unfold w2, fr_trunc_tail; simpl; auto; try lia.
-    - eapply fok_mono; [|apply (p_fr _ _ PW1)]. apply (p_st _ _ PW1).
-    - assert (X := p_sh _ _ PW1). simpl in X. lia.
-    - intros j Hj. apply (jok_transfer w1); simpl; auto; try lia.
+  { apply (pinv_transfer_core w1 _ lp PW1).
+    - reflexivity.
+    - unfold w2, fr_trunc_tail. simpl. eapply fok_mono; [|apply (p_fr _ _ PW1)]. apply (p_st _ _ PW1).
+    - unfold w2, fr_trunc_tail. simpl. rewrite H1, D1. lia.
+    - unfold w2, fr_trunc_tail. simpl. lia.
+    - unfold w2, fr_trunc_tail. simpl. rewrite T1. lia.
+    - unfold w2, fr_trunc_tail. simpl. rewrite D1. lia.
+    - intros j Hj. apply (jok_transfer w1).
       + apply (p_js _ _ PW1). exact Hj.
-      + apply (p_st _ _ PW1).
-      + apply (p_hd _ _ PW1). }
+      + reflexivity.
+      + reflexivity.
+      + reflexivity.
+      + reflexivity.
+      + unfold w2, fr_trunc_tail. simpl. apply (p_st _ _ PW1).
+      + unfold w2, fr_trunc_tail. simpl. apply (p_hd _ _ PW1). }
   exists [(EV_APPEND, w1); (EV_TRUNC_TAIL, w2)], w2, false. split; [reflexivity|].
   split; [intros e [<-|[<-|[]]]; [exact PW1|exact PW2]|]. split; [exact PW2|].
   unfold w2, fr_trunc_tail, w1, fr_append. simpl. repeat split; try lia.
